@@ -98,6 +98,18 @@ func famC20(c *hx.Ctx) []*scenario {
 		{kind: "ack", k: 1}, {kind: "ack", k: 2}, {kind: "ack", k: 3}}})
 	add(&scenario{name: "sub-token-timeout", mode: ackNever, ps: 1, tokenTO: 20 * time.Millisecond, steps: []step{in(connectPkt(true, nil)), in(all[9]), in(all[9]),
 		{kind: "settle"}}})
+	// more requests than subscribe tokens, acknowledged synchronously: every token must come back, nothing may time out
+	{
+		st := []step{in(connectPkt(true, nil))}
+		for i := 1; i <= 7; i++ {
+			if i%2 == 0 {
+				st = append(st, in(&packet.Subscribe{ID: packet.ID(i), Subscriptions: []packet.Subscription{{Topic: "a", QOS: 1}}}))
+			} else {
+				st = append(st, in(&packet.Unsubscribe{ID: packet.ID(i), Topics: []string{"a"}}))
+			}
+		}
+		add(&scenario{name: "sub-token-turnover", ps: 2, tokenTO: 300 * time.Millisecond, steps: st})
+	}
 	// backend call failures
 	for _, k := range []string{"sub", "unsub", "pub"} {
 		add(&scenario{name: "fail-" + k, failCall: map[string]int{k: 1}, steps: []step{in(connectPkt(true, nil)), in(all[9]), in(all[11]), in(pub(1, 1, false))}})
@@ -177,6 +189,40 @@ func famC07(c *hx.Ctx) []*scenario {
 	// late acknowledgement across a retransmitted PUBREL (backend contract observation)
 	add(&scenario{name: "late-ack-across-pubrel", mode: ackLate, steps: []step{in(connectPkt(false, nil)), in(pub(1, 2, false)), in(&packet.Pubrel{ID: 1}),
 		in(&packet.Pubrel{ID: 1}), {kind: "ack", k: 1}, {kind: "ack", k: 2}}})
+	// acknowledgement arriving after the connection it was handed out on has gone, then the PUBREL is retransmitted
+	resume := []step{{kind: "inerr"}, {kind: "reconnect", resumed: true}, in(connectPkt(false, nil))}
+	for _, q := range []int{1, 2} {
+		st := []step{in(connectPkt(false, nil)), in(pub(1, q, false))}
+		if q == 2 {
+			st = append(st, in(&packet.Pubrel{ID: 1}))
+		}
+		st = append(st, resume...)
+		st = append(st, step{kind: "ackall"})
+		if q == 2 {
+			st = append(st, in(&packet.Pubrel{ID: 1}), step{kind: "ackall"}, in(&packet.Pubrel{ID: 1}))
+		} else {
+			st = append(st, in(pub(1, q, true)), step{kind: "ackall"})
+		}
+		add(&scenario{name: fmt.Sprintf("ack-after-connection-gone-q%d", q), mode: ackLate, steps: st})
+	}
+	// retransmitted (dup) PUBLISH whose original never arrived, then PUBREL
+	add(&scenario{name: "dup-first", steps: []step{in(connectPkt(false, nil)), in(pub(1, 2, true)), in(&packet.Pubrel{ID: 1}), in(&packet.Pubrel{ID: 1})}})
+	// backend never acknowledges / fails: PUBREL retransmitted after resume must be handed on again, no PUBCOMP before
+	add(&scenario{name: "never-acked-resume", mode: ackNever, steps: append(append([]step{in(connectPkt(false, nil)), in(pub(1, 2, false)), in(&packet.Pubrel{ID: 1})}, resume...),
+		in(&packet.Pubrel{ID: 1}))})
+	add(&scenario{name: "publish-fails-resume", failCall: map[string]int{"pub": 1}, steps: append(append([]step{in(connectPkt(false, nil)), in(pub(1, 2, false)), in(&packet.Pubrel{ID: 1})}, resume...),
+		in(&packet.Pubrel{ID: 1}))})
+	// more QoS>0 publishes than publish tokens, all acknowledged at once: nothing may time out
+	{
+		st := []step{in(connectPkt(false, nil))}
+		for i := 1; i <= 7; i++ {
+			st = append(st, in(pub(i, 1+i%2, false)))
+			if i%2 == 1 {
+				st = append(st, in(&packet.Pubrel{ID: packet.ID(i)}))
+			}
+		}
+		add(&scenario{name: "pub-token-turnover", pp: 2, tokenTO: 300 * time.Millisecond, steps: st})
+	}
 	// publish token exhaustion
 	add(&scenario{name: "pub-tokens", mode: ackLate, pp: 2, steps: []step{in(connectPkt(false, nil)), in(pub(1, 1, false)), in(pub(2, 1, false)), in(pub(3, 1, false)),
 		{kind: "ack", k: 2}, {kind: "ack", k: 1}, {kind: "ack", k: 3}}})
@@ -377,6 +423,13 @@ func famC12(c *hx.Ctx) []*scenario {
 				steps = append(steps, stt.st...)
 				steps = append(steps, cs.st...)
 				add(&scenario{name: fmt.Sprintf("will%d-%s-%s", wi, cs.name, stt.name), mode: stt.mode, steps: steps})
+			}
+		}
+		// displacement / shutdown striking after a packet was read and before it is handled
+		for _, second := range []packet.Generic{&packet.Disconnect{}, pub(1, 1, false), &packet.Pingreq{}} {
+			for n := 1; n <= 2; n++ {
+				add(&scenario{name: fmt.Sprintf("will%d-close-on-rx%d-%s", wi, n, second.Type().String()), closeOnRx: n,
+					steps: []step{in(connectPkt(true, w)), in(second)}})
 			}
 		}
 		// before CONNACK: authentication rejected / failing, setup failing, CONNACK unsendable, first packet wrong
